@@ -54,7 +54,8 @@ def main():
                 .replace('\x00', '\\')
         if not comment:
             comment = prev_comment
-        expect_miss = comment.lower().startswith(('missed', '(equivalent', '(not a violation'))
+        expect_miss = comment.lower().startswith(('missed', '(equivalent', '(not a violation')) or \
+            (tier == 'quick' and 'thorough only' in comment.lower()[:60])
         muts.append((spec, comment, expect_miss))
 
     def one(m):
